@@ -52,6 +52,9 @@ def drive(mod, fn, args, script, gen_script=None):
                         yields.append(["y", plain(it.send(op[1]))])
                     elif op[0] == "throw":
                         yields.append(["y", plain(it.throw(mod.Boom(op[1])))])
+                    elif op[0] == "throwq":
+                        # something that is not an Exception (the kind KeyboardInterrupt / SystemExit are)
+                        yields.append(["y", plain(it.throw(mod.Quit(op[1])))])
                     elif op[0] == "close":
                         it.close()
                         yields.append(["closed"])
